@@ -1730,3 +1730,88 @@ def P11_field_coverage(facts, rule, adt, writer_roots, not_persisted, depth=2, v
 	if not out:
 		out.append(Result(rule, True, 'ok:coverage:' + adt.rsplit('::', 1)[-1], '%s: %d of %d fields are read under the writer; %d on the reviewed not-persisted list' % (adt.rsplit('::', 1)[-1], covered, len(fields), len([f for f in fields if f in not_persisted])), len(fields)))
 	return out
+
+# ----------------------------------------------------------------------------- decision tables (P8)
+
+def path_table(fu, max_paths=2000):
+	"""enumerates the acyclic entry->return paths of a small function and returns rows
+	(conds, result) where conds maps a condition key ('disc:<place>' or '<bool expr>') to
+	either an int value or ('not', frozenset(excluded)), and result is the expression last
+	assigned to the return place on that path."""
+	ex = Expr(fu)
+	rows = []
+	count = [0]
+	def walk(b, conds, ret, seen):
+		if count[0] > max_paths:
+			raise AnchorMissing('too many paths in %s for table extraction' % fu.name)
+		blk = fu.blocks[b]
+		for s in blk['s']:
+			if s[1] == [0]:
+				ret = ex.of_rvalue(s[2])
+		t = blk['t']
+		k = t[1]
+		if k == 'ret':
+			count[0] += 1
+			rows.append((dict(conds), ret))
+			return
+		if k == 'call' and t[2]['dest'] == [0]:
+			ret = ex.of_rvalue(['call', t[2]])
+		if k == 'switch':
+			e = ex.of_operand(t[2])
+			key = ('disc:' + leaf_key(e[1])) if e[0] == 'disc' else leaf_key(e)
+			vals = t[3]
+			listed = [v for v, _ in vals]
+			for v, tb in vals:
+				if key in conds:
+					c = conds[key]
+					if isinstance(c, tuple):
+						if v in c[1]:
+							continue
+					elif c != v:
+						continue
+				if (b, tb) in seen:
+					continue
+				nc = dict(conds)
+				nc[key] = v
+				walk(tb, nc, ret, seen | {(b, tb)})
+			# otherwise edge
+			ob = t[4]
+			if key in conds:
+				c = conds[key]
+				if not isinstance(c, tuple) and c in listed:
+					return
+				if not isinstance(c, tuple):
+					if (b, ob) not in seen:
+						walk(ob, conds, ret, seen | {(b, ob)})
+					return
+			if (b, ob) not in seen and fu.blocks[ob]['t'][1] != 'unreachable':
+				nc = dict(conds)
+				prev = nc.get(key)
+				excl = frozenset(listed) | (prev[1] if isinstance(prev, tuple) else frozenset())
+				nc[key] = ('not', excl)
+				walk(ob, nc, ret, seen | {(b, ob)})
+			return
+		for s2 in fu.succ(b):
+			if (b, s2) in seen:
+				continue
+			walk(s2, conds, ret, seen | {(b, s2)})
+	walk(0, {}, None, frozenset())
+	return rows
+
+def table_lookup(rows, assignment):
+	"""assignment: list of (key regex, value). returns the set of result strings of the rows
+	consistent with it (a row is consistent if each of its conditions whose key matches a regex agrees)."""
+	out = set()
+	for conds, ret in rows:
+		ok = True
+		for key, c in conds.items():
+			for rx, val in assignment:
+				if _re.search(rx, key):
+					if isinstance(c, tuple):
+						if val in c[1]:
+							ok = False
+					elif c != val:
+						ok = False
+		if ok:
+			out.add(expr_str(ret) if ret is not None else 'None')
+	return out
